@@ -11,12 +11,55 @@ import (
 
 	"github.com/elastos/Elastos.ELA/common"
 	"github.com/elastos/Elastos.ELA/common/config"
+	"github.com/elastos/Elastos.ELA/core/contract"
+	pg "github.com/elastos/Elastos.ELA/core/contract/program"
 	"github.com/elastos/Elastos.ELA/core/types"
+	common2 "github.com/elastos/Elastos.ELA/core/types/common"
+	"github.com/elastos/Elastos.ELA/core/types/functions"
+	"github.com/elastos/Elastos.ELA/core/types/interfaces"
+	"github.com/elastos/Elastos.ELA/core/types/payload"
+	"github.com/elastos/Elastos.ELA/crypto"
+	"github.com/elastos/Elastos.ELA/dpos/state"
 	"verif/harness/internal/rep"
 	"verif/harness/internal/stack"
 )
 
-const base = 3
+// height of the common prefix of plain blocks (Irreversible.tla's Base); set from VERIF_IRREV_BASE
+var base = 3
+
+// toPOW builds the RevertToPOW transaction (type NoBlock) for a block at height h.
+func toPOW(h uint32) interfaces.Transaction {
+	return functions.CreateTransaction(common2.TxVersion09, common2.RevertToPOW, payload.RevertToPOWVersion,
+		&payload.RevertToPOW{Type: payload.NoBlock, WorkingHeight: h},
+		[]*common2.Attribute{}, []*common2.Input{}, []*common2.Output{}, 0, []*pg.Program{})
+}
+
+// toDPOS builds the RevertToDPOS transaction as ProposalDispatcher.CreateRevertToDPOS does:
+// one program whose code is the m-of-n script over the normal current arbiters.
+func toDPOS(n *stack.Node, nonce uint32) (interfaces.Transaction, error) {
+	var pks []*crypto.PublicKey
+	arbs := n.Arbiters.GetArbitrators()
+	for _, a := range arbs {
+		if !a.IsNormal {
+			continue
+		}
+		pk, err := crypto.DecodePoint(a.NodePublicKey)
+		if err != nil {
+			return nil, err
+		}
+		pks = append(pks, pk)
+	}
+	m := int(float64(len(arbs))*state.MajoritySignRatioNumerator/state.MajoritySignRatioDenominator) + 1
+	code, err := contract.CreateRevertToPOWRedeemScript(m, pks)
+	if err != nil {
+		return nil, err
+	}
+	nb := []byte{byte(nonce >> 24), byte(nonce >> 16), byte(nonce >> 8), byte(nonce)}
+	return functions.CreateTransaction(common2.TxVersion09, common2.RevertToDPOS, payload.RevertToDPOSVersion,
+		&payload.RevertToDPOS{WorkHeightInterval: payload.WorkHeightInterval, RevertToPOWBlockHeight: n.Arbiters.GetRevertToPOWBlockHeight()},
+		[]*common2.Attribute{{Usage: common2.Nonce, Data: nb}}, []*common2.Input{}, []*common2.Output{}, 0,
+		[]*pg.Program{{Code: code, Parameter: []byte{1, 0}}}), nil
+}
 
 func tweak(p *config.Configuration) {
 	// DPoS bookkeeping from the first blocks on (see DESIGN.md C30): the arbiter
@@ -25,11 +68,14 @@ func tweak(p *config.Configuration) {
 	p.DPoSConfiguration.PreConnectOffset = 1
 	p.CRCOnlyDPOSHeight = 3
 	p.DPoSConfiguration.RevertToPOWStartHeight = 7
+	// a RevertToPOW transaction of type NoBlock is acceptable without waiting
+	p.DPoSConfiguration.RevertToPOWNoBlockTime = 0
+	p.DPoSConfiguration.RevertToPOWNoBlockTimeV1 = 0
 }
 
 func mainIDs(n *stack.Node, idOf map[common.Uint256]int) []int {
 	var r []int
-	for h := uint32(base + 1); h <= n.Chain.GetHeight(); h++ {
+	for h := uint32(base) + 1; h <= n.Chain.GetHeight(); h++ {
 		hash, err := n.Chain.GetBlockHash(h)
 		id := -1
 		if err == nil {
@@ -65,18 +111,40 @@ func replayOne(b rep.Behaviour) bool {
 		parent = blk
 	}
 	blocks[0] = parent
-	maxLIH := uint32(0)
+	maxLIH := n.Arbiters.State.GetLastIrreversibleHeight()
+	fellInReorg := false
 	for i, st := range b {
 		a := st.Args()
 		id := rep.Int(a, "id")
-		blk, err := n.NewBlock(blocks[rep.Int(a, "parent")], nil, stack.BlockOpts{})
-		if err != nil {
-			rep.Mismatch("block factory: "+err.Error(), b[:i+1])
-			return false
+		act := rep.Str(st, "act")
+		var blk *types.Block
+		if act == "Mine" {
+			par := blocks[rep.Int(a, "parent")]
+			var txs []interfaces.Transaction
+			switch rep.Str(a, "kind") {
+			case "toPOW":
+				txs = append(txs, toPOW(par.Height+1))
+			case "toDPOS":
+				tx, err := toDPOS(n, uint32(id))
+				if err != nil {
+					rep.Mismatch("RevertToDPOS factory: "+err.Error(), b[:i+1])
+					return false
+				}
+				txs = append(txs, tx)
+			}
+			var err error
+			blk, err = n.NewBlock(par, txs, stack.BlockOpts{})
+			if err != nil {
+				rep.Mismatch("block factory: "+err.Error(), b[:i+1])
+				return false
+			}
+			blocks[id] = blk
+			idOf[blk.Hash()] = id
+			heightOf[blk.Hash()] = blk.Height
+		} else {
+			blk = blocks[id]
 		}
-		blocks[id] = blk
-		idOf[blk.Hash()] = id
-		heightOf[blk.Hash()] = blk.Height
+		what := fmt.Sprintf("%s(%d)", act, id)
 		lihBefore := n.Arbiters.State.GetLastIrreversibleHeight()
 		hBefore := n.Chain.GetHeight()
 		mainBefore := mainIDs(n, idOf)
@@ -86,14 +154,19 @@ func replayOne(b rep.Behaviour) bool {
 		var pan interface{}
 		func() {
 			defer func() { pan = recover() }()
-			inMain, orphan, perr = n.Process(blk)
+			if act == "Mine" {
+				inMain, orphan, perr = n.Process(blk)
+			} else {
+				perr = n.Chain.ReorganizeChain(blk)
+			}
 		}()
 		c := map[string]interface{}{"behaviour": b[:i+1]}
 		if pan != nil {
-			rep.Violation("C03:panic:ProcessBlock", fmt.Sprintf("ProcessBlock panicked: %v", pan), c)
+			rep.Violation("C03:panic:"+act, fmt.Sprintf("%s panicked: %v", what, pan), c)
 			return false
 		}
 		lihAfter := n.Arbiters.State.GetLastIrreversibleHeight()
+		modeAfter := n.Arbiters.State.GetConsensusAlgorithm().String()
 		hAfter := n.Chain.GetHeight()
 		mainAfter := mainIDs(n, idOf)
 		var detached []int
@@ -104,15 +177,31 @@ func replayOne(b rep.Behaviour) bool {
 					detached[len(detached)-1] = -1
 				} else if h <= lihBefore {
 					// ---- C30, evaluated on the real node ----
-					rep.Violation("C30:detach-at-or-below-irreversible", fmt.Sprintf(
-						"block at height %d was detached although the last irreversible height was %d", h, lihBefore), c)
+					rep.Violation("C30:detach-at-or-below-irreversible:"+act, fmt.Sprintf(
+						"%s: block at height %d was detached although the last irreversible height was %d", what, h, lihBefore), c)
+				} else if h <= maxLIH {
+					// the recorded height is lower than it once was: known to happen through a
+					// reorganisation onto a branch with a RevertToPOW block (fellInReorg), anything
+					// else is a different defect
+					shape := "other"
+					if fellInReorg {
+						shape = "after-height-fell-in-reorganization"
+					}
+					rep.Violation("C30:detach-once-irreversible:"+shape, fmt.Sprintf(
+						"%s: block at height %d was detached; the node had recorded the last irreversible height %d earlier (it is %d now)",
+						what, h, maxLIH, lihBefore), c)
 				}
 			}
 		}
-		c["real"] = fmt.Sprintf("inMain=%v orphan=%v err=%v main=%v lih=%d height=%d detached=%v", inMain, orphan, perr, mainAfter, lihAfter, hAfter, detached)
+		c["real"] = fmt.Sprintf("inMain=%v orphan=%v err=%v main=%v lih=%d mode=%s height=%d detached=%v", inMain, orphan, perr, mainAfter, lihAfter, modeAfter, hAfter, detached)
 		if hAfter > hBefore && lihAfter < lihBefore {
-			rep.Violation("C30:irreversible-height-decreased", fmt.Sprintf(
-				"height grew %d -> %d but the last irreversible height fell %d -> %d", hBefore, hAfter, lihBefore, lihAfter), c)
+			shape := "extension"
+			if len(detached) > 0 {
+				shape = "reorganization"
+				fellInReorg = true
+			}
+			rep.Violation("C30:irreversible-height-decreased:"+shape, fmt.Sprintf(
+				"%s: height grew %d -> %d but the last irreversible height fell %d -> %d", what, hBefore, hAfter, lihBefore, lihAfter), c)
 		}
 		if lihAfter > maxLIH {
 			maxLIH = lihAfter
@@ -120,7 +209,7 @@ func replayOne(b rep.Behaviour) bool {
 		// ---- conformance with the spec ----
 		verdict := rep.Str(st, "verdict")
 		if perr != nil || orphan {
-			rep.Mismatch(fmt.Sprintf("ProcessBlock(%d) = (%v, %v, %v) for a valid block on a known parent", id, inMain, orphan, perr), c)
+			rep.Mismatch(fmt.Sprintf("%s = (%v, %v, %v) for a valid block on a known parent", what, inMain, orphan, perr), c)
 			return false
 		}
 		var em []int
@@ -128,20 +217,25 @@ func replayOne(b rep.Behaviour) bool {
 			em = append(em, int(x.(float64)))
 		}
 		if fmt.Sprint(em) != fmt.Sprint(mainAfter) {
-			key := "C30:chain:" + verdict
+			key := "C30:chain:" + act + ":" + verdict
 			if verdict == "refused" {
-				key = "C30:irreversible-reorg-not-refused"
+				key = "C30:irreversible-reorg-not-refused:" + act
 			}
-			rep.Violation(key, fmt.Sprintf("after Mine(%d) [%s]: active chain real %v, spec %v (before %v)", id, verdict, mainAfter, em, mainBefore), c)
+			rep.Violation(key, fmt.Sprintf("after %s [%s]: active chain real %v, spec %v (before %v)", what, verdict, mainAfter, em, mainBefore), c)
 			return false
 		}
-		if inMain != (verdict == "extended" || verdict == "reorganized") {
+		if act == "Mine" && inMain != (verdict == "extended" || verdict == "reorganized") {
 			rep.Violation("C30:result-flag:"+verdict, fmt.Sprintf("ProcessBlock(%d) inMain=%v, spec verdict %s", id, inMain, verdict), c)
 			return false
 		}
 		if int(lihAfter) != rep.Int(st, "lih") {
-			rep.Violation("C30:irreversible-height:"+verdict, fmt.Sprintf("after Mine(%d) [%s] at height %d: last irreversible height real %d, spec %d",
-				id, verdict, hAfter, lihAfter, rep.Int(st, "lih")), c)
+			rep.Violation("C30:irreversible-height:"+verdict, fmt.Sprintf("after %s [%s] at height %d: last irreversible height real %d, spec %d",
+				what, verdict, hAfter, lihAfter, rep.Int(st, "lih")), c)
+			return false
+		}
+		if m := rep.Str(st, "mode"); m != "" && m != modeAfter {
+			rep.Violation("C30:consensus-mode:"+verdict, fmt.Sprintf("after %s [%s] at height %d: consensus mode real %s, spec %s",
+				what, verdict, hAfter, modeAfter, m), c)
 			return false
 		}
 		var ed []int
@@ -149,7 +243,7 @@ func replayOne(b rep.Behaviour) bool {
 			ed = append(ed, int(x.(float64)))
 		}
 		if fmt.Sprint(ed) != fmt.Sprint(detached) {
-			rep.Violation("C30:detached-blocks:"+verdict, fmt.Sprintf("Mine(%d): detached heights real %v, spec %v", id, detached, ed), c)
+			rep.Violation("C30:detached-blocks:"+verdict, fmt.Sprintf("%s: detached heights real %v, spec %v", what, detached, ed), c)
 			return false
 		}
 	}
@@ -163,6 +257,9 @@ func main() {
 	}
 	stack.InitGlobals()
 	defer stack.CleanupGlobals()
+	if v := os.Getenv("VERIF_IRREV_BASE"); v != "" {
+		base, _ = strconv.Atoi(v)
+	}
 	behs := rep.ReadBehaviours(os.Args[2])
 	si, sn := 0, 1
 	if len(os.Args) >= 5 {
